@@ -10,6 +10,21 @@ NOTE = ("Trusted: Coq 8.16.1 kernel + vm_compute; no axioms (Print Assumptions c
         "its ExtrOcamlBasic extraction vs the implementation built from the working tree); Rust harness, python generators.")
 
 CHECKS = {
+    "C01": dict(
+        category="other",
+        text="Machine-checked (Props/C01.v), for ALL documents and ALL edit histories: the text and the token stream of the "
+             "incrementally updated document are those of a fresh analysis and the lexer never fails (from the C07 theorem); "
+             "if the updated tree equals the scratch tree the whole document up to the tree is the fresh one (C01_partial). The "
+             "remaining hypothesis is REFUTED for the code as it is (C01_tree_refuted, C01_full_statement_refuted: a concrete "
+             "edit on which parser::update differs from parser::parse) - the property does not hold; this is recorded as known "
+             "finding C01-incparse, not repaired (redesign of the incremental parser). The check decides every generated "
+             "history by (1) correspondence: a faithful Gallina transcription of AnalyzedSource::update incl. the pinned "
+             "incremental parser (Model/ParserInc.v, Model/UpdateDoc.v) must reproduce the real updated document (tree with "
+             "all diagnostics, errors(), table) after every notification, and (2) an implementation oracle update(doc) == "
+             "new(text) field by field: a divergence predicted by the model is the known finding, any other divergence (or any "
+             "deviation from the model) is a violation.",
+        design_ref="DESIGN.md section 5, C01",
+        technique="Coq proof of the text/token layers and refutation of the tree layer + model/implementation correspondence discriminating the known finding"),
     "C20": dict(
         category="proof",
         text="Theorems for ALL message histories and ALL schedules (Props/C20.v, 17 theorems) over the transition system of "
